@@ -589,7 +589,8 @@ func c16matrix(c *h.Ctx, r *h.Rand) {
 	}
 	// the repaired computeAuthData on an object without protected header: AAD = "" [ "." b64(aad) ]
 	if p, err := jose.ParseEncrypted(`{"unprotected":{"alg":"dir","enc":"A128GCM"},"aad":"QUJD","iv":"AAAAAAAAAAAAAAAA","ciphertext":"AAAA","tag":"AAAAAAAAAAAAAAAAAAAAAA"}`); err == nil {
-		c.Eq("jwe.aad.no_protected", "jose.aad - 414243", c16text(string(jose.VerifJWEAuthData(p))), c.O.Call("jose.aad", "-", "414243"))
+		got := h.Safe(func() string { return c16text(string(jose.VerifJWEAuthData(p))) })
+		c.Eq("jwe.aad.no_protected", "jose.aad - 414243", got, c.O.Call("jose.aad", "-", "414243"))
 	}
 
 	// =================================================================== malformed stream through the parsers
